@@ -261,12 +261,7 @@ func runC14(res *lib.Result, tier string, seed int64, args []string) error {
 			}
 			for _, n := range implLocals {
 				if !visible[n] {
-					if inK1[n] {
-						res.HitKnown("C14-K1", "a local is offered inside its own declaring statement ('local abc = ab|', or inside the function that initialises it): the declared-before-cursor test only looks at where the declaration starts", caseText)
-						res.Dist("hit.C14-K1")
-					} else {
-						res.AddViolation("impl-vs-spec", fmt.Sprintf("local %s is offered although it is not visible at the cursor (declared later or in a non-enclosing block)", n), caseText, false)
-					}
+					res.AddViolation("impl-vs-spec", fmt.Sprintf("local %s is offered although it is not visible at the cursor (declared later, inside its own declaring statement, or in a non-enclosing block)", n), caseText, false)
 				}
 			}
 		}
